@@ -85,6 +85,18 @@ class TooBig(Exception):
   pass
 
 
+def _received(recobj, cfg, key):
+  """The object the callee received for the argument stored under `key` (name, positional index,
+  *args index or **kwargs name)."""
+  if isinstance(key, str):
+    return recobj.bound[key] if key in recobj.bound else recobj.varkw[key]
+  from harness.gen import recipes
+  info = recipes.ParamInfo(cfg.__fn_or_cls__)
+  if key < info.npos:
+    return recobj.bound[info.positional[key]]
+  return recobj.varargs[key - info.npos]
+
+
 def walk_pairs(cfg, built, limit=30000):
   """Parallel un-memoized walk of config and built graph: yields (path, c, b)."""
   count = [0]
@@ -101,8 +113,7 @@ def walk_pairs(cfg, built, limit=30000):
       if not isinstance(recobj, vuni.Rec):
         raise AssertionError(f'built value at {path} is not a Rec: {b!r}')
       for k in C._ordered_keys(c):  # pylint: disable=protected-access
-        got = recobj.bound[k] if k in recobj.bound else recobj.varkw[k]   # named parameter or **kwargs entry
-        yield from rec(c.__arguments__[k], got, path + (('a', k),))
+        yield from rec(c.__arguments__[k], _received(recobj, c, k), path + (('a', k),))
     elif isinstance(c, boxes.Box):
       if not isinstance(b, boxes.Box) or len(b.items) != len(c.items):
         raise AssertionError(f'built Box mismatch at {path}: {b!r}')
@@ -243,7 +254,7 @@ def check(case):
         for k in C._ordered_keys(c):  # pylint: disable=protected-access
           ch = c.__arguments__[k]
           if isinstance(ch, fdl.Buildable):
-            chb = recobj.bound[k] if k in recobj.bound else recobj.varkw[k]
+            chb = _received(recobj, c, k)
             chrec = chb.__vrec__ if hasattr(chb, '__vrec__') else chb
             if order.get(id(chrec), 10**9) > my:
               out.add('dependency-built-after-dependent', 'order', '', feature, str(path))
